@@ -281,10 +281,14 @@ def gen_case_c14(seed, tier):
             ch["slicing_opts"] = ops_rng.choice([None, None, {"target_size": 2 ** ops_rng.randint(1, 4)}, {"target_slices": 2}])
         return ch
 
+    # swarm: some histories hammer one contraction (needs several stores of the SAME entry in one process)
+    focus = sw.random() < 0.35
+    p_restart = sw.choice([0.2, 0.2, 0.05])
     for _ in range(nsteps):
         r = ops_rng.random()
-        if r < 0.68:
-            steps.append({"step": "query", "q": ops_rng.randrange(len(pool)), "via": ops_rng.choice(["search", "search", "call"]),
+        if r < 0.88 - p_restart:
+            qi = 0 if (focus and ops_rng.random() < 0.75) else ops_rng.randrange(len(pool))
+            steps.append({"step": "query", "q": qi, "via": ops_rng.choice(["search", "search", "call"]),
                           "seed": ops_rng.randrange(2 ** 31)})
         elif r < 0.88:
             steps.append({"step": "restart", "cfg": gen_cfg_changes()})
